@@ -210,8 +210,83 @@ fn check_main(args: &[String]) {
         children.push((k, start, end, out, prog, child));
     }
     let mut sum = Summary::default();
-    for (k, start, end, out, prog, mut child) in children {
-        let status = child.wait().unwrap();
+    // watchdog: every worker must move on to its next run within a bounded time (liveness);
+    // a run that does not finish is reported as `hang` with its plan as replay file
+    let limit = std::time::Duration::from_secs(std::env::var("VERIF_RUN_TIMEOUT_S").ok().and_then(|s| s.parse().ok()).unwrap_or(300));
+    let read_progress = |prog: &PathBuf| -> Option<u64> {
+        let mut buf = [0u8; 8];
+        std::fs::File::open(prog).ok().and_then(|f| f.read_at(&mut buf, 0).ok()).filter(|&n| n == 8).map(|_| u64::from_le_bytes(buf))
+    };
+    let mut finished: Vec<(u64, u64, u64, PathBuf, PathBuf, Option<std::process::ExitStatus>, bool)> = vec![];
+    {
+        let mut live: Vec<_> = children.into_iter().map(|c| (c, None::<u64>, Instant::now())).collect();
+        while !live.is_empty() {
+            let mut i = 0;
+            while i < live.len() {
+                let ((k, start, end, out, prog, child), last, since) = &mut live[i];
+                match child.try_wait().unwrap() {
+                    Some(st) => {
+                        finished.push((*k, *start, *end, out.clone(), prog.clone(), Some(st), false));
+                        live.swap_remove(i);
+                        continue;
+                    }
+                    None => {
+                        let cur = read_progress(prog);
+                        if cur != *last {
+                            *last = cur;
+                            *since = Instant::now();
+                        } else {
+                            let minimising = cur.map(|c| c & common::MINIMISING != 0).unwrap_or(false);
+                            let lim = if minimising { limit * 6 } else { limit };
+                            if since.elapsed() > lim {
+                                let _ = child.kill();
+                                let _ = child.wait();
+                                finished.push((*k, *start, *end, out.clone(), prog.clone(), None, true));
+                                live.swap_remove(i);
+                                continue;
+                            }
+                        }
+                    }
+                }
+                i += 1;
+            }
+            std::thread::sleep(std::time::Duration::from_millis(50));
+        }
+    }
+    finished.sort_by_key(|f| f.0);
+    for (k, start, end, out, prog, status, hung) in finished {
+        if hung {
+            let run = read_progress(&prog).map(|r| r & !common::MINIMISING).unwrap_or(start);
+            eprintln!("worker {k} (runs {start}..{end}) made no progress for {limit:?} in run {run}: killed");
+            let path = replay_path(property, seed, run, "-hang");
+            let rf = ReplayFile {
+                property: property.to_string(),
+                engine: engine_of(property).into(),
+                verif_seed: seed,
+                run,
+                class: "hang".into(),
+                signature: "no-progress".into(),
+                detail: format!("the run did not finish within {limit:?} (bounded-progress violation); plan stored unminimised"),
+                original_size: 0,
+                minimised_size: 0,
+                minimiser_executions: 0,
+                plan: plan_value(property, seed, run),
+                miri_seed: None,
+            };
+            let _ = write_json(&path, &rf);
+            sum.runs += run.saturating_sub(start) + 1;
+            sum.violations.push(ViolationRec {
+                property: property.to_string(),
+                run,
+                class: "hang".into(),
+                signature: "no-progress".into(),
+                detail: rf.detail,
+                replay: path.display().to_string(),
+            });
+            sum.notes.insert(format!("worker {k} hung in run {run}; runs {}..{end} of its range were not executed", run + 1));
+            continue;
+        }
+        let status = status.unwrap();
         if status.success() {
             let b = std::fs::read(&out).unwrap_or_else(|e| harness_error(&format!("worker {k} left no summary: {e}")));
             let s: Summary = serde_json::from_slice(&b).unwrap_or_else(|e| harness_error(&format!("worker {k} summary: {e}")));
@@ -221,8 +296,7 @@ fn check_main(args: &[String]) {
         } else {
             // the worker died (abort, e.g. a std unsafe-precondition check, or a signal):
             // the run it was executing is the violation
-            let mut buf = [0u8; 8];
-            let run = std::fs::File::open(&prog).ok().and_then(|f| f.read_at(&mut buf, 0).ok()).map(|_| u64::from_le_bytes(buf)).unwrap_or(start);
+            let run = read_progress(&prog).map(|r| r & !common::MINIMISING).unwrap_or(start);
             let how = match status.signal() {
                 Some(sig) => format!("signal {sig}"),
                 None => format!("exit status {:?}", status.code()),
